@@ -136,3 +136,18 @@ M("c05-nf-source", "C05", "esf/esf.py", "sv_manager.apply_common_scale_variation
 M("c05-proj-transpose", "C05", SVF, "                        ((target, oqed, 0, lnf), (partons_proj.T, val_sv, err_sv))", "                        ((target, oqed, 0, lnf), (partons_proj.T[::-1], val_sv, err_sv))", expect="C05.rge")
 B("c05-dict-ctor", "C05", SVF, "        ren_coeffs = {\n            (2, 1, 1): +beta0,\n            (3, 1, 2): +2 * beta0,\n            (3, 1, 1): +beta.beta_qcd_as3(nf),\n            (3, 2, 1): +(beta0**2),\n        }", "        ren_coeffs = dict([((2, 1, 1), beta0), ((3, 1, 2), beta0 + beta0), ((3, 1, 1), beta.beta_qcd_as3(nf)), ((3, 2, 1), beta0 * beta0)])")
 B("c05-rename-c211", "C05", SPF, "def c211(lab, matrices, nf):", "def c211(lab, matrices, nf, _unused=None):")
+
+# ----------------------------------------------------------------------------- C11
+EXF = "esf/exs.py"
+M("c11-f3sign", "C11", EXF, "    return np.array([yp, -yL, f3sign * ym]) * norm", "    return np.array([yp, -yL, -f3sign * ym]) * norm", expect="C11.coeffs")
+M("c11-yL", "C11", EXF, "    ym = 1.0 - (1.0 - y) ** 2\n    yL = y**2", "    ym = 1.0 - (1.0 - y) ** 2\n    yL = y", expect="C11.coeffs")
+M("c11-heracc-norm", "C11", EXF, "        norm = 1.0 / 4.0", "        norm = 1.0 / 2.0", expect="XSHERACC")
+M("c11-basis-order", "C11", EXF, 'sf1, sf2, sf3 = "F2", "FL", "F3"', 'sf1, sf2, sf3 = "FL", "F2", "F3"', expect="C11.combo")
+M("c11-flavour-mix", "C11", EXF, '            ObservableName(f"{sf2}_{flavor}"), self.kin\n        ).get_result()', '            ObservableName(f"{sf2}_total"), self.kin\n        ).get_result()', expect="C11.combo")
+M("c11-kind-fallthrough", "C11", EXF, '        if kind == "XSNUTEVNU":', '        if kind == "XSNUTEVNu":', expect="XSNUTEVNU")
+M("c11-f3sign-predicate", "C11", EXF, '    f3sign = -1 if params["projectilePID"] < 0 else 1', '    f3sign = -1 if params["projectilePID"] % 2 == 0 else 1', expect="C11.coeffs")
+M("c11-chorus-mass", "C11", EXF, "        yp -= 2.0 * (mn * x * y) ** 2 / Q2  # = ypc", "        yp -= 2.0 * (mn * x * y) / Q2  # = ypc", expect="C11.coeffs")
+M("c11-skip-f3-always", "C11", EXF, "        if linear_coeffs[2] != 0.0:", "        if linear_coeffs[2] != 0.0 and self.info.obs_name.kind == \"XSHERANC\":", expect="C11.combo")
+M("c11-order-shift", "C11", EXF, "            sigma.orders[(o[0], o[1] + self.alpha_qed_power(), o[2], o[3])] = v", "            sigma.orders[(o[0], o[1] + self.alpha_qed_power(), o[3], o[2])] = v", expect="C11.combo")
+M("c11-xs-raw", "C11", "xs.py", "return self.runner.get_sf(obs_name).get_esf(obs_name, kin, use_raw=False)", "return self.runner.get_sf(obs_name).get_esf(obs_name, kin, use_raw=True)", expect="C11.combo")
+B("c11-hoist-prop", "C11", EXF, "        norm *= 1.0 / (2.0 * x * (1.0 + Q2 / params[\"M2W\"]) ** 2)", "        prop = (1.0 + Q2 / params[\"M2W\"]) ** 2\n        norm = norm / (2.0 * x * prop)")
